@@ -376,7 +376,22 @@ class Check:
                     confirmed = (res, chk)
                     break
             if confirmed is None:
-                self.agg["errors"].append({"job": cands[0]["job"], "error": "violation %s did not reproduce on re-execution" % (cls,)})
+                # The oracle fired in the original run but the same script does not fire again: the library's behaviour under this script is
+                # not a function of the script (e.g. it depends on object addresses).  That is still a violation of the property - the run
+                # that showed it is recorded - but it cannot be minimised; the replay file carries the original script and says so.
+                res = cands[0]
+                v = next(v for v in res["violations"] if vclass(v) == cls)
+                n_new += 1
+                os.makedirs(os.path.join(env.VERIF, "replays"), exist_ok=True)
+                path = os.path.join(env.VERIF, "replays", "%s-%d-%d.json" % (prop.ID, res["job"]["seed"], n_new))
+                with open(path, "w") as f:
+                    json.dump({"property": prop.ID, "seed": res["job"]["seed"], "tier": tier, "batch": res["job"]["batch"], "violation": v,
+                               "digest": res["digest"], "script": res["script"], "reproducible": False,
+                               "note": "fired in %d of the explored runs of this class but not on re-execution of the same script: behaviour depends on "
+                                       "something outside the script (address-dependent ordering?); replay may need several attempts" % len(byclass[cls])}, f, indent=1)
+                self.say("VIOLATION property=%s replay=%s" % (prop.ID, path))
+                self.say("  (not reproducible on re-execution: nondeterministic under the same script) oracle=%s observable=%s detail=%s" % (
+                    v["oracle"], v["observable"], json.dumps(v["detail"])[:500]))
                 continue
             res, chk = confirmed
             script = minimise(prop, res["script"], cls, tier, budget_s=prop.MINIMISE_S[tier],
